@@ -49,7 +49,7 @@ def run_cases(b, cases, workdir, fmt=b"%{uid}/%{euid}:%{cmdline}"):
         open(sp, "w").write(s.text())
         if os.path.exists(op):
             os.unlink(op)
-        env = {"PATH": "/usr/bin:/bin", "LD_PRELOAD": b["lib"] + ":" + os.path.join(c.BUILD, "librec.so"), "XDRV_INI": os.path.join(ctx.etc, "snoopy.ini")}
+        env = dict({"PATH": "/usr/bin:/bin", "LD_PRELOAD": cf.preload(b), "XDRV_INI": os.path.join(ctx.etc, "snoopy.ini")}, **cf.SAN_ENV)
         subprocess.run([os.path.join(c.BUILD, "xdrv"), sp, op], env=env, capture_output=True, timeout=1500, cwd=ctx.w, stdin=subprocess.DEVNULL)
         res, cur = {}, None
         for line in (open(op, errors="replace") if os.path.exists(op) else []):
